@@ -67,7 +67,7 @@ def draw_program(draw):
                 body.append(["addc", draw(st.integers(0, nloc - 1)), draw(st.integers(-5, 5))])
                 nloc += 1
             elif k == 4:
-                body.append(["mulc", draw(st.integers(0, nloc - 1)), draw(st.sampled_from([-2, -1, 2, 3, P - 1, P + 2]))])
+                body.append(["mulc", draw(st.integers(0, nloc - 1)), draw(st.sampled_from([-2, -1, 0, 2, 3, P - 1, P, P + 2]))])
                 nloc += 1
             elif fi > 0 and k >= 5:
                 inner = draw(st.integers(0, fi - 1))
@@ -107,8 +107,13 @@ def draw_program(draw):
         if k <= 1:
             main.append([draw(st.sampled_from(["priv", "pub"])), draw(vals)])
             nv += 1
-        elif k <= 3:
+        elif k == 2:
             main.append(["bin", draw(st.sampled_from("*+-*")), draw(st.integers(0, nv - 1)), draw(st.integers(0, nv - 1))])
+            nv += 1
+        elif k == 3:
+            # c1*v_i + c2*v_j with coefficients that may vanish (mod p): a combination whose first term is a zero term
+            main.append(["lin", draw(st.integers(0, nv - 1)), draw(st.integers(0, nv - 1)),
+                         draw(st.sampled_from([0, 0, 1, -1, 2, P])), draw(st.sampled_from([1, 1, 0, -1, 3]))])
             nv += 1
         elif k == 4:
             main.append(["val", draw(st.integers(0, nv - 1))])
@@ -186,6 +191,9 @@ def render(prog):
             v.append(nm)
         elif s[0] == "bin":
             L.append("%s = %s %s %s" % (nm, v[s[2]], s[1], v[s[3]]))
+            v.append(nm)
+        elif s[0] == "lin":
+            L.append("%s = %s * (%d) + %s * (%d)" % (nm, v[s[1]], s[3], v[s[2]], s[4]))
             v.append(nm)
         elif s[0] == "val":
             L.append("%s.val()" % v[s[1]])
